@@ -1,12 +1,15 @@
-(* C16 round trip for whole annotation statements: parsing the canonical line of a documented statement
-   gives back exactly embed_stat (incl. the trailing comment, verbatim). *)
+(* C16 round trip for whole annotation statements: parsing the line of a documented statement (printed by either
+   printer, `nested`) gives back exactly embed_stat nested (incl. the trailing comment, verbatim). *)
 From Coq Require Import String Ascii List Arith NArith Bool Lia ZifyN ZifyNat ZifyBool.
 From LH Require Import Base.Bytes Base.Res Model.AnnLexer Model.AnnAst Model.AnnParser Spec.AnnGrammar
   Proofs.AnnLexFacts Proofs.AnnRoundtrip.
 Import ListNotations.
 Local Open Scope nat_scope.
 
-Notation shw := (show_bare true).
+Section Stat.
+Variable nested : bool.
+Notation shw := (show_bare nested).
+Notation show_line := (show_stat nested).
 
 (* ------------------------------------------------------------------ the first token of a type *)
 Definition type_start (k : akind) : Prop :=
@@ -37,7 +40,7 @@ Proof.
     eexists. eexists. split; [exact Hk|]. unfold type_start. cbn [tkind]. destruct Hcase as [->|[-> _]]; tauto.
   - destruct (lex_const s q rest Hd) as [x Hx]. eexists. eexists. split; [exact Hx|]. unfold type_start. cbn. tauto.
   - cbn [tsize doc_type] in Hs, Hd. rewrite <- app_assoc.
-    destruct (item_paren true i); cbn [paren].
+    destruct (item_paren nested i); cbn [paren].
     + cbn [app]. eexists. eexists. split; [apply lex_lparen|]. unfold type_start. cbn. tauto.
     + assert (Hi : tsize i <= n) by lia. apply (IH i Hi Hd). reflexivity.
   - eexists. eexists. split; [apply lex_kw_table; exact Hstop|]. unfold type_start. cbn. tauto.
@@ -59,7 +62,7 @@ Lemma first_token_bare t rest : doc_type t = true -> stop rest = true ->
 Proof. intros. eapply first_token; eauto. Qed.
 
 Lemma first_token_sub t rest : doc_type t = true -> stop rest = true ->
-  exists tk c, lex_token (show_sub true t ++ rest) = Ok (tk, c) /\ type_start (tkind tk).
+  exists tk c, lex_token (show_sub nested t ++ rest) = Ok (tk, c) /\ type_start (tkind tk).
 Proof.
   intros Hd Hs. unfold show_sub. destruct (sub_paren t); cbn [paren].
   - cbn [app]. eexists. eexists. split; [apply lex_lparen|]. unfold type_start. cbn. tauto.
@@ -86,13 +89,13 @@ Qed.
 (* a type in a "last" position (bare text) followed by the comment *)
 Lemma one_type_last t c f l :
   doc_type t = true -> At (shw t ++ show_comment c) l -> 2 * length (shw t) + 18 <= f ->
-  exists tk rest', parse_one_type f l = POk (embed_one t) (StA rest' tk) /\
+  exists tk rest', parse_one_type f l = POk (embed_one nested t) (StA rest' tk) /\
                    (tkind tk = KEOF \/ tkind tk = KAt) /\ get_comment (StA rest' tk) = comment_of c.
 Proof.
   intros Hd Hat Hf. destruct (comment_fol c) as (tk & rest' & Hfol & Hk & Hc).
   exists tk, rest'. split; [|split; assumption].
   destruct (tail_kind_facts _ Hk) as ((K1 & K2 & K3) & _ & _ & _ & Hcp).
-  apply (claimC_all t Hd f l (show_comment c) tk rest' Hat Hfol (Hcp t) K1 K2 Hf).
+  apply (claimC_all nested t Hd f l (show_comment c) tk rest' Hat Hfol (Hcp t) K1 K2 Hf).
 Qed.
 
 (* ------------------------------------------------------------------ statement keywords *)
@@ -156,14 +159,14 @@ Proof. reflexivity. Qed.
 (* parserOneType at a last position, from a state positioned before a blank *)
 Lemma one_type_last_sp t c f :
   doc_type t = true -> 2 * length (shw t) + 18 <= f ->
-  exists tk rest', parse_one_type f (St (32%N :: shw t ++ show_comment c)) = POk (embed_one t) (StA rest' tk) /\
+  exists tk rest', parse_one_type f (St (32%N :: shw t ++ show_comment c)) = POk (embed_one nested t) (StA rest' tk) /\
                    (tkind tk = KEOF \/ tkind tk = KAt) /\ get_comment (StA rest' tk) = comment_of c.
 Proof. intros Hd Hf. apply one_type_last; [exact Hd | apply At_sp | exact Hf]. Qed.
 
 (* ------------------------------------------------------------------ vararg *)
 Lemma stat_vararg t c : doc_type t = true ->
   exists l', parse_one_state (fuel_of (show_line (DSVararg t c))) (St (show_line (DSVararg t c)))
-             = POk (embed_stat (DSVararg t c)) l'.
+             = POk (embed_stat nested (DSVararg t c)) l'.
 Proof.
   intros Hd. unfold show_line. cbn [show_stat embed_stat].
   set (fuel := fuel_of _).
@@ -178,10 +181,10 @@ Qed.
 (* ------------------------------------------------------------------ alias *)
 Lemma stat_alias n t c : doc_stat (DSAlias n t c) = true ->
   exists l', parse_one_state (fuel_of (show_line (DSAlias n t c))) (St (show_line (DSAlias n t c)))
-             = POk (embed_stat (DSAlias n t c)) l'.
+             = POk (embed_stat nested (DSAlias n t c)) l'.
 Proof.
   cbn [doc_stat]. intros Hd. apply andb_true_iff in Hd as [Hn Hd].
-  unfold show_line. cbn [show_stat embed_stat].
+  cbn [show_stat embed_stat].
   set (fuel := fuel_of _).
   assert (Hfuel : 2 * length (shw t) + 18 <= fuel).
   { subst fuel. rewrite !fuel_of_app. pose proof (fuel_of_ge (show_comment c)). lia. }
@@ -243,10 +246,10 @@ Qed.
 (* ------------------------------------------------------------------ param *)
 Lemma stat_param isc n opt t c : doc_stat (DSParam isc n opt t c) = true ->
   exists l', parse_one_state (fuel_of (show_line (DSParam isc n opt t c))) (St (show_line (DSParam isc n opt t c)))
-             = POk (embed_stat (DSParam isc n opt t c)) l'.
+             = POk (embed_stat nested (DSParam isc n opt t c)) l'.
 Proof.
   cbn [doc_stat]. intros Hd. apply andb_true_iff in Hd as [Hd Hdt]. apply andb_true_iff in Hd as [Hn Hc0].
-  unfold show_line. cbn [show_stat embed_stat].
+  cbn [show_stat embed_stat].
   set (fuel := fuel_of _).
   assert (Hfuel : 2 * length (shw t) + 18 <= fuel).
   { subst fuel. rewrite !fuel_of_app. pose proof (fuel_of_ge (show_comment c)). lia. }
@@ -263,7 +266,7 @@ Proof.
                                   then let* (_, l) := next_token_p l in POk true l else POk false l) in
                let* (t0, l) := parse_one_type fuel l in
                POk (SParam isc0 opt0 name t0 (get_comment l)) l)
-              = POk (SParam isc0 opt n (embed_one t) (comment_of c)) l').
+              = POk (SParam isc0 opt n (embed_one nested t) (comment_of c)) l').
   { intros isc0 l0 Hat0. rewrite (npn_word n X l0 Hn HX Hat0). cbn [pbind]. subst X.
     destruct opt; cbn [app].
     - rewrite (lak_St _ _ _ (lex_option _)). cbn [pbind tkind]. kcomp. rewrite ntp_StA. cbn [pbind].
@@ -312,10 +315,10 @@ Qed.
 
 Lemma stat_field sc colon n t c : doc_stat (DSField sc colon n t c) = true ->
   exists l', parse_one_state (fuel_of (show_line (DSField sc colon n t c))) (St (show_line (DSField sc colon n t c)))
-             = POk (embed_stat (DSField sc colon n t c)) l'.
+             = POk (embed_stat nested (DSField sc colon n t c)) l'.
 Proof.
   cbn [doc_stat]. intros Hd. apply andb_true_iff in Hd as [Hd Hsc]. apply andb_true_iff in Hd as [Hn Hdt].
-  unfold show_line. cbn [show_stat embed_stat].
+  cbn [show_stat embed_stat].
   set (fuel := fuel_of _).
   assert (Hfuel : 2 * length (shw t) + 18 <= fuel).
   { subst fuel. rewrite !fuel_of_app. pose proof (fuel_of_ge (show_comment c)). lia. }
@@ -331,7 +334,7 @@ Proof.
                                     then let* (_, l) := next_token_p l in POk 1%N l else POk 0%N l) in
                let* (t0, l) := parse_one_type fuel l in
                POk (SField sc0 colon0 name t0 (get_comment l)) l)
-              = POk (SField sc0 (if colon then 1%N else 0%N) n (embed_one t) (comment_of c)) l').
+              = POk (SField sc0 (if colon then 1%N else 0%N) n (embed_one nested t) (comment_of c)) l').
   { intros sc0 l0 Hat0. rewrite (nfn_word n X l0 Hn HX Hat0). cbn [pbind]. subst X.
     destruct colon; cbn [app].
     - unfold k_sp_colon_sp. cbn [app].
@@ -366,7 +369,7 @@ Proof.
 Qed.
 
 (* ------------------------------------------------------------------ overload *)
-Lemma doc_fun_claims ps rs : doc_type (DFun ps rs) = true -> Forall PClaim ps /\ Forall ClaimC rs.
+Lemma doc_fun_claims ps rs : doc_type (DFun ps rs) = true -> Forall (PClaim nested) ps /\ Forall (ClaimC nested) rs.
 Proof.
   cbn [doc_type]. intros Hd. apply andb_true_iff in Hd as [Hdp Hdr]. split.
   - apply Forall_forall. intros [[pn po] pot] Hin. rewrite forallb_forall in Hdp. specialize (Hdp _ Hin).
@@ -377,10 +380,10 @@ Qed.
 
 Lemma stat_overload ps rs c : doc_stat (DSOverload ps rs c) = true ->
   exists l', parse_one_state (fuel_of (show_line (DSOverload ps rs c))) (St (show_line (DSOverload ps rs c)))
-             = POk (embed_stat (DSOverload ps rs c)) l'.
+             = POk (embed_stat nested (DSOverload ps rs c)) l'.
 Proof.
   cbn [doc_stat]. intros Hd. destruct (doc_fun_claims ps rs Hd) as [HP HR].
-  unfold show_line. cbn [show_stat embed_stat].
+  cbn [show_stat embed_stat].
   set (fuel := fuel_of _).
   assert (Hfuel : 2 * length (shw (DFun ps rs)) + 12 <= fuel).
   { subst fuel. rewrite !fuel_of_app. pose proof (fuel_of_ge (show_comment c)). lia. }
@@ -388,15 +391,33 @@ Proof.
   unfold parse_overload_state. rewrite nok_StA by reflexivity. cbn [pbind].
   destruct (comment_fol c) as (tk & rest' & Hfol & Hk & Hc).
   destruct (tail_kind_facts _ Hk) as ((K1 & K2 & K3) & Kc & Kcm & _ & _).
-  rewrite (fun_type_rt ps rs HP HR fuel _ (show_comment c) tk rest' (At_sp _) Hfol K3 Kc Kcm K2 K1 Hfuel).
+  rewrite (fun_type_rt nested ps rs HP HR fuel _ (show_comment c) tk rest' (At_sp _) Hfol K3 Kc Kcm K2 K1 Hfuel).
   cbn [pbind]. rewrite Hc. eexists. reflexivity.
 Qed.
 
-(* ------------------------------------------------------------------ enum (without comment) *)
-Lemma stat_enum st :
-  exists l', parse_one_state (fuel_of (show_line (DSEnum st None))) (St (show_line (DSEnum st None)))
-             = POk (embed_stat (DSEnum st None)) l'.
-Proof. destruct st; eexists; vm_compute; reflexivity. Qed.
+(* ------------------------------------------------------------------ enum (with any trailing comment) *)
+Lemma stat_enum st c :
+  exists l', parse_one_state (fuel_of (show_line (DSEnum st c))) (St (show_line (DSEnum st c)))
+             = POk (embed_stat nested (DSEnum st c)) l'.
+Proof.
+  cbn [show_stat embed_stat]. set (fuel := fuel_of _).
+  destruct (comment_fol c) as (tk & rest' & [Hlex Hstop] & _ & Hc).
+  set (w := if st then s_start else s_end).
+  assert (Htxt : (if st then k_enum_start else k_enum_end) ++ show_comment c = k_enum ++ w ++ show_comment c)
+    by (subst w; destruct st; reflexivity).
+  rewrite Htxt.
+  unfold parse_one_state. rewrite (lak_St _ _ _ (lex_k_enum _)). cbn [pbind tkind].
+  unfold parse_enum_state. rewrite nok_StA by reflexivity. cbn [pbind].
+  assert (Hw : lex_token (32%N :: w ++ show_comment c) = Ok (mkTok KIdent w, show_comment c)).
+  { rewrite lex_token_sp. apply lex_plain_name; [subst w; destruct st; reflexivity | apply stop_comment]. }
+  rewrite (lak_St _ _ _ Hw). cbn [pbind tkind]. kcomp.
+  rewrite nti_StA by reflexivity. cbn [pbind tstr].
+  assert (Hsel : (beq_bytes w s_start || beq_bytes w s_end = true) /\
+                 (if beq_bytes w s_start then 1%N else 2%N) = (if st then 1%N else 2%N))
+    by (subst w; destruct st; split; reflexivity).
+  destruct Hsel as [-> ->].
+  rewrite (lak_St _ _ _ Hlex). cbn [pbind]. rewrite Hc. eexists. reflexivity.
+Qed.
 
 (* ------------------------------------------------------------------ class *)
 Lemma lex_sp_colon X : lex_token (k_sp_colon_sp ++ X) = Ok (mkTok KColon [58%N], 32%N :: X).
@@ -430,10 +451,10 @@ Qed.
 
 Lemma stat_class n ps c : doc_stat (DSClass n ps c) = true ->
   exists l', parse_one_state (fuel_of (show_line (DSClass n ps c))) (St (show_line (DSClass n ps c)))
-             = POk (embed_stat (DSClass n ps c)) l'.
+             = POk (embed_stat nested (DSClass n ps c)) l'.
 Proof.
   cbn [doc_stat]. intros Hd. apply andb_true_iff in Hd as [Hn Hps].
-  unfold show_line. cbn [show_stat embed_stat].
+  cbn [show_stat embed_stat].
   set (fuel := fuel_of _).
   unfold parse_one_state. rewrite (lak_St _ _ _ (lex_k_class _)). cbn [pbind tkind].
   unfold parse_class_state. rewrite nok_StA by reflexivity. cbn [pbind].
@@ -523,10 +544,10 @@ Qed.
 
 Lemma stat_generic items c : doc_stat (DSGeneric items c) = true ->
   exists l', parse_one_state (fuel_of (show_line (DSGeneric items c))) (St (show_line (DSGeneric items c)))
-             = POk (embed_stat (DSGeneric items c)) l'.
+             = POk (embed_stat nested (DSGeneric items c)) l'.
 Proof.
   cbn [doc_stat]. intros Hd. apply andb_true_iff in Hd as [Hne Hit].
-  unfold show_line. cbn [show_stat embed_stat].
+  cbn [show_stat embed_stat].
   change (map (fun it : bytes * option bytes => fst it ++ match snd it with
                                                          | Some p => k_sp_colon_sp ++ p
                                                          | None => []
@@ -590,12 +611,12 @@ Qed.
 Definition tmk (it : bool * bool * dtype) (a : atype) : bool * bool * atype := (fst (fst it), snd (fst it), a).
 
 Lemma show_tlist_cons2 {A} (pre : A -> bytes) ty post a b r :
-  show_tlist true pre ty post (a :: b :: r) =
-  pre a ++ show_sub true (ty a) ++ post a ++ t_comma ++ show_tlist true pre ty post (b :: r).
+  show_tlist nested pre ty post (a :: b :: r) =
+  pre a ++ show_sub nested (ty a) ++ post a ++ t_comma ++ show_tlist nested pre ty post (b :: r).
 Proof. reflexivity. Qed.
 
 Lemma show_tlist_length {A} (pre : A -> bytes) ty post (l : list A) :
-  length l <= length (show_tlist true pre ty post l) + 1.
+  length l <= length (show_tlist nested pre ty post l) + 1.
 Proof.
   induction l as [|a [|b l] IH]; cbn [length show_tlist] in *; try lia.
   rewrite !app_length. change (length t_comma) with 2. cbn [length show_tlist] in IH. lia.
@@ -603,10 +624,10 @@ Qed.
 
 Lemma type_loop items c : items <> [] -> Forall (fun it => doc_type (snd it) = true) items ->
   forall f acc l,
-    At (show_tlist true tpre (fun it => snd it) (fun _ => []) items ++ show_comment c) l ->
-    2 * length (show_tlist true tpre (fun it => snd it) (fun _ => []) items) + 19 <= f ->
+    At (show_tlist nested tpre (fun it => snd it) (fun _ => []) items ++ show_comment c) l ->
+    2 * length (show_tlist nested tpre (fun it => snd it) (fun _ => []) items) + 19 <= f ->
     exists tk rest', type_items_loop f acc l
-                     = POk (acc ++ embed_tlist tmk (fun it => snd it) items) (StA rest' tk) /\
+                     = POk (acc ++ embed_tlist nested tmk (fun it => snd it) items) (StA rest' tk) /\
                      get_comment (StA rest' tk) = comment_of c.
 Proof.
   induction items as [|[[co en] t] items IH]; [congruence|]. intros _ HF f acc l Hat Hf.
@@ -618,33 +639,33 @@ Proof.
     rewrite !app_length in Hf.
     destruct (comment_fol c) as (tk & rest' & Hfol & Hk & Hc).
     destruct (tail_kind_facts _ Hk) as ((K1 & K2 & K3) & _ & Kcm & _ & Hcp).
-    rewrite (type_body co en (shw t) (embed_one t) (show_comment c) tk rest' f acc l).
+    rewrite (type_body co en (shw t) (embed_one nested t) (show_comment c) tk rest' f acc l).
     + rewrite (kind_neq_false _ _ Kcm). exists tk, rest'. split; [reflexivity | exact Hc].
     + apply first_token_bare; [exact Hdt | apply stop_comment].
-    + intros l1 Hat1. apply (claimC_all t Hdt f l1 _ tk rest' Hat1 Hfol (Hcp t) K1 K2). lia.
+    + intros l1 Hat1. apply (claimC_all nested t Hdt f l1 _ tk rest' Hat1 Hfol (Hcp t) K1 K2). lia.
     + rewrite <- !app_assoc. exact Hat.
   - rewrite show_tlist_cons2 in Hat, Hf. cbn [embed_tlist]. unfold tpre at 1 in Hat. unfold tpre at 1 in Hf.
     cbn [fst snd] in Hat, Hf.
     rewrite app_nil_l in Hat, Hf. rewrite <- !app_assoc in Hat. rewrite !app_length in Hf.
     change (length t_comma) with 2 in Hf.
-    set (more := show_tlist true tpre (fun it : bool * bool * dtype => snd it) (fun _ => []) (it2 :: items)
+    set (more := show_tlist nested tpre (fun it : bool * bool * dtype => snd it) (fun _ => []) (it2 :: items)
                  ++ show_comment c) in *.
-    rewrite (type_body co en (show_sub true t) (embed_sub t) (t_comma ++ more) (mkTok KComma [44%N]) (32%N :: more) f acc l).
+    rewrite (type_body co en (show_sub nested t) (embed_sub nested t) (t_comma ++ more) (mkTok KComma [44%N]) (32%N :: more) f acc l).
     + cbn [tkind]. kcomp. rewrite nok_StA by reflexivity. cbn [pbind].
-      destruct (IH ltac:(discriminate) HF' f (acc ++ [(co, en, embed_sub t)]) _ (At_sp _) ltac:(lia))
+      destruct (IH ltac:(discriminate) HF' f (acc ++ [(co, en, embed_sub nested t)]) _ (At_sp _) ltac:(lia))
         as (tk & rest' & -> & Hc).
       exists tk, rest'. rewrite <- app_assoc. split; [reflexivity | exact Hc].
     + apply first_token_sub; [exact Hdt | reflexivity].
-    + intros l1 Hat1. apply (sub_one t (claimC_all t Hdt) f l1 _ _ _ Hat1 (fol_comma _) ok_follow_comma). lia.
+    + intros l1 Hat1. apply (sub_one nested t (claimC_all nested t Hdt) f l1 _ _ _ Hat1 (fol_comma _) ok_follow_comma). lia.
     + rewrite <- !app_assoc. exact Hat.
 Qed.
 
 Lemma stat_type items c : doc_stat (DSType items c) = true ->
   exists l', parse_one_state (fuel_of (show_line (DSType items c))) (St (show_line (DSType items c)))
-             = POk (embed_stat (DSType items c)) l'.
+             = POk (embed_stat nested (DSType items c)) l'.
 Proof.
   cbn [doc_stat]. intros Hd. apply andb_true_iff in Hd as [Hne Hit].
-  unfold show_line. cbn [show_stat embed_stat].
+  cbn [show_stat embed_stat].
   change (fun it : bool * bool * dtype =>
             (if fst (fst it) then k_const else []) ++ (if snd (fst it) then k_enum else [])) with tpre.
   change (fun (it : bool * bool * dtype) (a : atype) => (fst (fst it), snd (fst it), a)) with tmk.
@@ -688,10 +709,10 @@ Proof. split; [discriminate|]. intros _. repeat split; discriminate. Qed.
 
 Lemma return_loop items c : items <> [] -> Forall (fun it => doc_type (fst it) = true) items ->
   forall f acc l,
-    At (show_tlist true (fun _ => []) (fun it => fst it) rpost items ++ show_comment c) l ->
-    2 * length (show_tlist true (fun _ => []) (fun it : dtype * bool => fst it) rpost items) + 19 <= f ->
+    At (show_tlist nested (fun _ => []) (fun it => fst it) rpost items ++ show_comment c) l ->
+    2 * length (show_tlist nested (fun _ => []) (fun it : dtype * bool => fst it) rpost items) + 19 <= f ->
     exists tk rest', return_items_loop f acc l
-                     = POk (acc ++ embed_tlist rmk (fun it => fst it) items) (StA rest' tk) /\
+                     = POk (acc ++ embed_tlist nested rmk (fun it => fst it) items) (StA rest' tk) /\
                      get_comment (StA rest' tk) = comment_of c.
 Proof.
   induction items as [|[t opt] items IH]; [congruence|]. intros _ HF f acc l Hat Hf.
@@ -702,35 +723,35 @@ Proof.
     rewrite app_nil_l in *. rewrite <- !app_assoc in Hat. rewrite !app_length in Hf.
     destruct (comment_fol c) as (tk & rest' & [Hlex Hstop] & Hk & Hc).
     destruct (tail_kind_facts _ Hk) as ((K1 & K2 & K3) & _ & Kcm & Ko & Hcp).
-    rewrite (return_body (shw t) (embed_one t) opt (show_comment c) tk rest' f acc l Hlex Ko).
+    rewrite (return_body (shw t) (embed_one nested t) opt (show_comment c) tk rest' f acc l Hlex Ko).
     + rewrite (kind_neq_false _ _ Kcm). exists tk, rest'. split; [reflexivity | exact Hc].
     + intros l1 rest Hat1.
-      apply (claimC_all t Hdt f l1 _ _ _ Hat1 (fol_option rest) (cond_prim_option t)); [discriminate|discriminate|lia].
-    + intros l1 Hat1. apply (claimC_all t Hdt f l1 _ tk rest' Hat1 (conj Hlex Hstop) (Hcp t) K1 K2). lia.
+      apply (claimC_all nested t Hdt f l1 _ _ _ Hat1 (fol_option rest) (cond_prim_option t)); [discriminate|discriminate|lia].
+    + intros l1 Hat1. apply (claimC_all nested t Hdt f l1 _ tk rest' Hat1 (conj Hlex Hstop) (Hcp t) K1 K2). lia.
     + exact Hat.
   - rewrite show_tlist_cons2 in Hat, Hf. cbn [embed_tlist]. cbn beta in Hat, Hf. cbn [fst snd] in *.
     rewrite app_nil_l in Hat, Hf. rewrite <- !app_assoc in Hat. rewrite !app_length in Hf.
     change (length t_comma) with 2 in Hf.
-    set (more := show_tlist true (fun _ => []) (fun it : dtype * bool => fst it) rpost (it2 :: items)
+    set (more := show_tlist nested (fun _ => []) (fun it : dtype * bool => fst it) rpost (it2 :: items)
                  ++ show_comment c) in *.
-    rewrite (return_body (show_sub true t) (embed_sub t) opt (t_comma ++ more) (mkTok KComma [44%N]) (32%N :: more)
+    rewrite (return_body (show_sub nested t) (embed_sub nested t) opt (t_comma ++ more) (mkTok KComma [44%N]) (32%N :: more)
                          f acc l eq_refl ltac:(discriminate)).
     + cbn [tkind]. kcomp. rewrite nok_StA by reflexivity. cbn [pbind].
-      destruct (IH ltac:(discriminate) HF' f (acc ++ [(embed_sub t, opt)]) _ (At_sp _) ltac:(lia))
+      destruct (IH ltac:(discriminate) HF' f (acc ++ [(embed_sub nested t, opt)]) _ (At_sp _) ltac:(lia))
         as (tk & rest' & -> & Hc).
       exists tk, rest'. rewrite <- app_assoc. split; [reflexivity | exact Hc].
     + intros l1 rest Hat1.
-      apply (sub_one t (claimC_all t Hdt) f l1 _ _ _ Hat1 (fol_option rest) ok_follow_option). lia.
-    + intros l1 Hat1. apply (sub_one t (claimC_all t Hdt) f l1 _ _ _ Hat1 (fol_comma _) ok_follow_comma). lia.
+      apply (sub_one nested t (claimC_all nested t Hdt) f l1 _ _ _ Hat1 (fol_option rest) ok_follow_option). lia.
+    + intros l1 Hat1. apply (sub_one nested t (claimC_all nested t Hdt) f l1 _ _ _ Hat1 (fol_comma _) ok_follow_comma). lia.
     + exact Hat.
 Qed.
 
 Lemma stat_return items c : doc_stat (DSReturn items c) = true ->
   exists l', parse_one_state (fuel_of (show_line (DSReturn items c))) (St (show_line (DSReturn items c)))
-             = POk (embed_stat (DSReturn items c)) l'.
+             = POk (embed_stat nested (DSReturn items c)) l'.
 Proof.
   cbn [doc_stat]. intros Hd. apply andb_true_iff in Hd as [Hne Hit].
-  unfold show_line. cbn [show_stat embed_stat].
+  cbn [show_stat embed_stat].
   set (fuel := fuel_of _).
   unfold parse_one_state. rewrite (lak_St _ _ _ (lex_k_return _)). cbn [pbind tkind].
   unfold parse_return_state. rewrite nok_StA by reflexivity. cbn [pbind].
@@ -743,11 +764,11 @@ Proof.
 Qed.
 
 (* ------------------------------------------------------------------ all statement forms *)
-Theorem stat_roundtrip : forall s, doc_stat s = true -> enum_with_comment s = false ->
-  ann_parse_line (fuel_of (show_line s)) (show_line s) = Ok (inl (embed_stat s)).
+Theorem stat_roundtrip_gen : forall s, doc_stat s = true ->
+  ann_parse_line (fuel_of (show_line s)) (show_line s) = Ok (inl (embed_stat nested s)).
 Proof.
-  intros s Hd He.
-  assert (H : exists l', parse_one_state (fuel_of (show_line s)) (St (show_line s)) = POk (embed_stat s) l').
+  intros s Hd.
+  assert (H : exists l', parse_one_state (fuel_of (show_line s)) (St (show_line s)) = POk (embed_stat nested s) l').
   { destruct s.
     - apply stat_type; exact Hd.
     - apply stat_alias; exact Hd.
@@ -758,7 +779,7 @@ Proof.
     - apply stat_return; exact Hd.
     - apply stat_generic; exact Hd.
     - apply stat_vararg; exact Hd.
-    - destruct c; [discriminate He|]. apply stat_enum. }
+    - apply stat_enum. }
   destruct H as [l' H]. eapply run_line. exact H.
 Qed.
 
@@ -775,9 +796,25 @@ Definition dstat_comment (s : dstat) : option bytes :=
   | DSReturn _ c | DSGeneric _ c | DSVararg _ c | DSEnum _ c => c
   end.
 
-Theorem comment_kept : forall s x, doc_stat s = true -> enum_with_comment s = false -> dstat_comment s = Some x ->
+Theorem comment_kept_gen : forall s x, doc_stat s = true -> dstat_comment s = Some x ->
   exists a, ann_parse_line (fuel_of (show_line s)) (show_line s) = Ok (inl a) /\ stat_comment a = x.
 Proof.
-  intros s x Hd He Hc. exists (embed_stat s). split; [apply stat_roundtrip; assumption|].
+  intros s x Hd Hc. exists (embed_stat nested s). split; [apply stat_roundtrip_gen; assumption|].
   destruct s; cbn in Hc |- *; subst; reflexivity.
 Qed.
+End Stat.
+
+(* the canonical printer `(T[])[]` *)
+Theorem stat_roundtrip : forall s, doc_stat s = true ->
+  ann_parse_line (fuel_of (show_line s)) (show_line s) = Ok (inl (embed_line s)).
+Proof. exact (stat_roundtrip_gen true). Qed.
+
+(* the plain printer `T[][]`: the documented rule TYPE[] applied repeatedly *)
+Theorem stat_roundtrip_plain : forall s, doc_stat s = true ->
+  ann_parse_line (fuel_of (show_line_plain s)) (show_line_plain s) = Ok (inl (embed_line_plain s)).
+Proof. exact (stat_roundtrip_gen false). Qed.
+
+(* the trailing comment is returned verbatim, whatever its bytes (enum lines included) *)
+Theorem comment_kept : forall s x, doc_stat s = true -> dstat_comment s = Some x ->
+  exists a, ann_parse_line (fuel_of (show_line s)) (show_line s) = Ok (inl a) /\ stat_comment a = x.
+Proof. exact (comment_kept_gen true). Qed.
